@@ -436,12 +436,20 @@ def run_c18(mbi, case):
         eng.iters = call['iters']
         cb = Counter() if (ci + len(call['sub'])) % 2 == 0 else None     # half of the calls pass no callback (and go through the shared default options)
         tag = 'oracle=%s call#%d iters=%d total=%r meas=%s warm=%s callback=%s' % (oracle, ci, call['iters'], call['total'], call['sub'], case['warm'], 'yes' if cb else 'none')
-        if cb is not None:
-            model, v = guard(lambda: eng.estimate(meas, call['total'], callback=cb), 'LocalInference.estimate:' + oracle)
-        else:
-            model, v = guard(lambda: eng.estimate(meas, call['total']), 'LocalInference.estimate:' + oracle)
-            cb = Counter()
-            cb.calls = call['iters']
+        # runaway restart recursion (finding F10) should surface as the RecursionError it is within seconds, not after minutes of
+        # 1000 restarts x 50 iterations: the interpreter's recursion limit is lowered to ~250 frames above the current depth
+        import sys as _sys, inspect as _inspect
+        _old = _sys.getrecursionlimit()
+        _sys.setrecursionlimit(min(_old, len(_inspect.stack()) + 250))
+        try:
+            if cb is not None:
+                model, v = guard(lambda: eng.estimate(meas, call['total'], callback=cb), 'LocalInference.estimate:' + oracle)
+            else:
+                model, v = guard(lambda: eng.estimate(meas, call['total']), 'LocalInference.estimate:' + oracle)
+                cb = Counter()
+                cb.calls = call['iters']
+        finally:
+            _sys.setrecursionlimit(_old)
         steps += cb.calls
         if ci > 0:
             faults['estimator-reuse'] = 1
